@@ -24,13 +24,13 @@ from vector._methods import Momentum  # noqa: E402
 N = build.N_ELEMS
 
 A_KINDS = ("object", "np1", "np2", "flat", "jagged", "nested", "optrec", "optlist", "regular", "record")
-ARRAY_KINDS = build.NP_LAYOUTS + build.AK_LAYOUTS
+ARRAY_KINDS = build.NP_LAYOUTS + build.NP_VIEW_LAYOUTS + build.AK_LAYOUTS
 
 
 def backend_of_kind(kind):
     if kind == "object":
         return "object"
-    if kind in build.NP_LAYOUTS:
+    if kind in build.NP_LAYOUTS or kind in build.NP_VIEW_LAYOUTS:
         return "numpy"
     return "awkward"
 
@@ -117,7 +117,7 @@ class Obs:
     pass
 
 
-def evaluate(cfg, elems, want_ref=True):
+def evaluate(cfg, elems, want_ref=True, before=None):
     """Run one configuration.  Returns an Obs with fields:
     skipped (reason) | exc (exception of the array call) | result, kind, operands (a, b),
     ref (list per present element of read_result tuples or ('exc', e)), present (indices)"""
@@ -164,8 +164,10 @@ def evaluate(cfg, elems, want_ref=True):
         o.present = [0]
     o.pair = [(i if ka in ARRAY_KINDS else 0, (i if kb in ARRAY_KINDS else 0) if db else None) for i in o.present]
     o.exc = None
+    if before is not None:
+        before(o)
     try:
-        o.result = op.call(A, B, sc)
+        o.result = (cfg.get("_call") or op.call)(A, B, sc)
     except Exception as e:  # noqa: BLE001
         o.exc = e
         o.result = None
